@@ -14,12 +14,12 @@ import (
 	"errors"
 	"fmt"
 	"math"
-	"math/big"
 	"math/rand"
 	"net"
 	"net/http"
 	"net/http/httptest"
 	"os"
+	"strconv"
 	"strings"
 	"sync"
 	"time"
@@ -34,16 +34,20 @@ import (
 type request struct{ Method, URL string }
 
 type recorder struct {
-	mu       sync.Mutex
-	events   []int64 // 1 wait, 2 request
-	requests []request
-	status   int
-	body     string
+	mu        sync.Mutex
+	events    []int64 // 1 wait, 2 request
+	requests  []request
+	status    int
+	body      string
+	hops      []string      // Location of the i-th answer while i < len(hops)
+	hopStatus int           // the 3xx status of those answers
+	arrived   chan struct{} // non-nil: the first request signals here and then waits for the client to go away
 }
 
 func (r *recorder) reset(status int, body string) {
 	r.mu.Lock()
 	r.events, r.requests, r.status, r.body = nil, nil, status, body
+	r.hops, r.hopStatus, r.arrived = nil, 0, nil
 	r.mu.Unlock()
 }
 
@@ -52,7 +56,22 @@ func (r *recorder) ServeHTTP(w http.ResponseWriter, q *http.Request) {
 	r.events = append(r.events, 2)
 	r.requests = append(r.requests, request{q.Method, "http://" + q.Host + q.RequestURI})
 	status, body := r.status, r.body
+	n := len(r.requests)
+	hops, hopStatus, arrived := r.hops, r.hopStatus, r.arrived
 	r.mu.Unlock()
+	if arrived != nil && n == 1 {
+		close(arrived)
+		select {
+		case <-q.Context().Done():
+		case <-time.After(3 * time.Second):
+		}
+		return
+	}
+	if n <= len(hops) {
+		w.Header().Set("Location", hops[n-1])
+		w.WriteHeader(hopStatus)
+		return
+	}
 	w.Header().Set("Content-Type", "text/xml")
 	w.WriteHeader(status)
 	if status != 304 && status != 204 {
@@ -72,7 +91,8 @@ func (l *limiter) Wait(ctx context.Context) error {
 	if l.fail {
 		return errors.New("limiter: no tokens")
 	}
-	return nil
+	// like golang.org/x/time/rate.Limiter: a finished context makes Wait fail
+	return ctx.Err()
 }
 
 // ---------- the call description ----------
@@ -232,14 +252,13 @@ func errClass(err error) int64 {
 }
 
 // run performs the call on the real implementation.
-func run(ds *osmapi.Datasource, c call) (hasData bool, data []el, err error, panicked bool) {
+func run(ctx context.Context, ds *osmapi.Datasource, c call) (hasData bool, data []el, err error, panicked bool) {
 	defer func() {
 		if r := recover(); r != nil {
 			panicked = true
 			hasData, data, err = false, nil, nil
 		}
 	}()
-	ctx := context.Background()
 	var fo []osmapi.FeatureOption
 	for _, a := range c.FOpts {
 		t := time.Unix(a.Unix, a.Nsec).In(time.FixedZone("z", a.Zone))
@@ -501,49 +520,26 @@ func putObserved(c *wire.Case, o observed) {
 	c.Bool(o.Panicked)
 }
 
-// known-finding class, decided from the input alone: a bbox coordinate that six decimals cannot
-// carry at OSM's 1e-7 resolution, i.e. |x*10^6 - nearest integer| > 1/20
-const knownBBox = "bbox-coordinate-needs-7th-decimal"
-
-func needs7th(x float64) bool {
-	if math.IsNaN(x) || math.IsInf(x, 0) {
-		return false
-	}
-	r := new(big.Rat).SetFloat64(x)
-	r.Mul(r, big.NewRat(1000000, 1))
-	// nearest integer
-	fl := new(big.Int).Div(r.Num(), r.Denom()) // floor for positive denominators (Div is Euclidean)
-	d := new(big.Rat).Sub(r, new(big.Rat).SetInt(fl))
-	if d.Cmp(big.NewRat(1, 2)) > 0 {
-		d.Sub(big.NewRat(1, 1), d)
-	}
-	return d.Cmp(big.NewRat(1, 20)) > 0
+// world: everything outside the package that the call meets
+type world struct {
+	Lim       int      // 0 no limiter, 1 limiter grants, 2 limiter refuses
+	Ctx       int      // 0 live, 1 cancelled before the call, 2 cancelled while the request is in flight
+	Follow    bool     // client follows redirects (default policy) or hands the 3xx back
+	Hops      []string // absolute Locations of the redirect answers preceding the final one
+	HopStatus int
 }
+
+func plain(lim int) world { return world{Lim: lim, Follow: true, HopStatus: 302} }
 
 type env struct {
-	rec    *recorder
-	client *http.Client
-	w      *wire.Writer
+	rec      *recorder
+	client   *http.Client // default redirect policy
+	noFollow *http.Client // CheckRedirect returns http.ErrUseLastResponse
+	w        *wire.Writer
 }
 
-func (e *env) doCase(class, base string, lim int, k call, status int, b body) (*wire.Case, observed) {
-	e.rec.reset(status, b.xml())
-	ds := &osmapi.Datasource{BaseURL: base, Client: e.client}
-	if lim > 0 {
-		ds.Limiter = &limiter{rec: e.rec, fail: lim == 2}
-	}
-	hasData, data, err, panicked := run(ds, k)
-	e.rec.mu.Lock()
-	ob := observed{Events: append([]int64(nil), e.rec.events...), Requests: append([]request(nil), e.rec.requests...),
-		Class: errClass(err), NotFound: ds.NotFound(err), HasData: hasData, Data: data, Panicked: panicked}
-	e.rec.mu.Unlock()
-	if err != nil {
-		ob.ErrText = err.Error()
-	}
-	c := &wire.Case{Class: class}
-	c.Int(1).Str(base).Int(int64(lim))
-	putCall(c, k)
-	c.Int(int64(status)).Int(int64(b.Kind))
+func putBody(c *wire.Case, b body) {
+	c.Int(int64(b.Kind))
 	switch b.Kind {
 	case 1:
 		putEls(c, b.Els)
@@ -552,17 +548,73 @@ func (e *env) doCase(class, base string, lim int, k call, status int, b body) (*
 		putEls(c, b.M)
 		putEls(c, b.D)
 	}
-	putObserved(c, ob)
-	if k.hasBounds() {
-		for _, x := range k.B {
-			if needs7th(x) {
-				c.Known = knownBBox
-			}
-		}
+}
+
+func encodeCase(c *wire.Case, base string, w world, k call, status int, b body, ob observed) {
+	c.Int(1).Str(base).Int(int64(w.Lim)).Int(int64(w.Ctx)).Bool(w.Follow)
+	c.Len(len(w.Hops))
+	for _, h := range w.Hops {
+		c.Str(h)
 	}
-	c.OracleFail = goOracle(k, lim, status, ob)
+	c.Int(int64(w.HopStatus))
+	putCall(c, k)
+	c.Int(int64(status))
+	putBody(c, b)
+	putObserved(c, ob)
+}
+
+func (e *env) doCase(class, base string, lim int, k call, status int, b body) (*wire.Case, observed) {
+	return e.doCaseW(class, base, plain(lim), k, status, b)
+}
+
+func (e *env) doCaseW(class, base string, w world, k call, status int, b body) (*wire.Case, observed) {
+	lim := w.Lim
+	e.rec.reset(status, b.xml())
+	e.rec.mu.Lock()
+	e.rec.hops, e.rec.hopStatus = w.Hops, w.HopStatus
+	var arrived chan struct{}
+	if w.Ctx == 2 {
+		arrived = make(chan struct{})
+		e.rec.arrived = arrived
+	}
+	e.rec.mu.Unlock()
+	client := e.client
+	if !w.Follow {
+		client = e.noFollow
+	}
+	ds := &osmapi.Datasource{BaseURL: base, Client: client}
+	if lim > 0 {
+		ds.Limiter = &limiter{rec: e.rec, fail: lim == 2}
+	}
+	ctx, cancel := context.WithCancel(context.Background())
+	switch w.Ctx {
+	case 1:
+		cancel()
+	case 2:
+		go func() {
+			select {
+			case <-arrived:
+			case <-time.After(3 * time.Second):
+			}
+			cancel()
+		}()
+	}
+	hasData, data, err, panicked := run(ctx, ds, k)
+	cancel()
+	e.rec.mu.Lock()
+	ob := observed{Events: append([]int64(nil), e.rec.events...), Requests: append([]request(nil), e.rec.requests...),
+		Class: errClass(err), NotFound: ds.NotFound(err), HasData: hasData, Data: data, Panicked: panicked}
+	e.rec.mu.Unlock()
+	if err != nil {
+		ob.ErrText = err.Error()
+	}
+	c := &wire.Case{Class: class}
+	encodeCase(c, base, w, k, status, b, ob)
+	c.OracleFail = goOracle(base, w, k, status, b, ob)
 	desc := map[string]interface{}{
 		"base_url": base, "limiter": []string{"none", "ok", "fails"}[lim], "call": k.name(),
+		"context": []string{"live", "cancelled before the call", "cancelled while the request is in flight"}[w.Ctx],
+		"client_follows_redirects": w.Follow, "redirect_locations": w.Hops, "redirect_status": w.HopStatus,
 		"status": status, "body": b.xml(),
 		"observed": map[string]interface{}{"events(1=wait,2=request)": ob.Events, "requests": ob.Requests, "error_class": ob.Class,
 			"error": ob.ErrText, "not_found": ob.NotFound, "has_data": ob.HasData, "data(kind,id)": ob.Data, "panicked": ob.Panicked},
@@ -597,67 +649,6 @@ func (e *env) doCase(class, base string, lim int, k call, status int, b body) (*
 	desc["args"] = args
 	c.Desc = desc
 	return c, ob
-}
-
-// goOracle is a coarse Go-side restatement of the property (request count and order, method,
-// error class per status, NotFound, no data on error).  It does not look at paths or queries:
-// those are judged in Coq.  It exists so that a failing input is still reported when the Coq
-// side cannot be built.
-func goOracle(k call, lim int, status int, ob observed) string {
-	if ob.Panicked {
-		return "the call panicked"
-	}
-	valid := true
-	for _, o := range k.NOpts {
-		if o.Kind == 0 && (o.N < 1 || o.N > 10000) {
-			valid = false
-		}
-	}
-	var want []int64
-	switch {
-	case !valid:
-	case lim == 0:
-		want = []int64{2}
-	case lim == 1:
-		want = []int64{1, 2}
-	default:
-		want = []int64{1}
-	}
-	if fmt.Sprint(want) != fmt.Sprint(ob.Events) && !(len(want) == 0 && len(ob.Events) == 0) {
-		return fmt.Sprintf("events %v, expected %v (1 = Wait, 2 = request)", ob.Events, want)
-	}
-	if !valid || lim == 2 {
-		if ob.Class != 6 || ob.NotFound || ob.HasData {
-			return "no request was permitted, yet the call did not fail with an ordinary error and no data"
-		}
-		return ""
-	}
-	if len(ob.Requests) != 1 || ob.Requests[0].Method != "GET" {
-		return "not exactly one GET"
-	}
-	wantClass := int64(5)
-	switch status {
-	case 200:
-		wantClass = -1
-	case 404:
-		wantClass = 1
-	case 403:
-		wantClass = 2
-	case 410:
-		wantClass = 3
-	case 414:
-		wantClass = 4
-	}
-	if wantClass >= 0 && (ob.Class != wantClass || ob.HasData) {
-		return fmt.Sprintf("status %d: error class %d (expected %d), has data %v", status, ob.Class, wantClass, ob.HasData)
-	}
-	if wantClass < 0 && !(ob.Class == 0 && ob.HasData || ob.Class == 6 && !ob.HasData) {
-		return fmt.Sprintf("status 200: error class %d, has data %v", ob.Class, ob.HasData)
-	}
-	if ob.NotFound != (status == 404) {
-		return fmt.Sprintf("NotFound(err) = %v for status %d", ob.NotFound, status)
-	}
-	return ""
 }
 
 func fmtG(x float64) string { return fmt.Sprintf("%.17g", x) }
@@ -908,7 +899,9 @@ func main() {
 			MaxIdleConnsPerHost: 4,
 		},
 	}
-	e := &env{rec: rec, client: client, w: w}
+	noFollow := &http.Client{Timeout: 20 * time.Second, Transport: client.Transport,
+		CheckRedirect: func(*http.Request, []*http.Request) error { return http.ErrUseLastResponse }}
+	e := &env{rec: rec, client: client, noFollow: noFollow, w: w}
 	add := func(c *wire.Case, ob observed) {
 		w.Add(c)
 		w.Count(fmt.Sprintf("error_class:%d", ob.Class))
@@ -1086,8 +1079,51 @@ func main() {
 		}
 		c, ob := e.doCase("random", bases[rng.Intn(len(bases))], lim, k, st, randBody(rng, k))
 		add(c, ob)
-		if c.Known != "" {
-			w.Count("known:" + c.Known)
+	}
+
+	// 7. redirects: the server answers 3xx with a Location n times before its final answer;
+	//    clients that follow (at most 10 requests in all) and clients that hand the 3xx back
+	hopURL := func(i int) string {
+		return []string{"http://mirror.test/api/0.6/elsewhere", "http://osm.test/moved/x?y=1", "http://h3.test:81/a", "http://osm.test/api/0.6/node/1"}[i%4] + strconv.Itoa(i)
+	}
+	for _, nh := range []int{1, 2, 3, 8, 9, 10, 11, 14} {
+		for _, hs := range []int{301, 302, 303, 307, 308} {
+			if nh > 3 && hs != 302 && hs != 308 && a.Tier != "thorough" {
+				continue
+			}
+			for _, follow := range []bool{true, false} {
+				v := vs[rng.Intn(len(vs))]
+				k := randCall(rng, v.code, v.elem)
+				k.NOpts = validOnly(k.NOpts)
+				wd := world{Lim: rng.Intn(2), Follow: follow, HopStatus: hs}
+				for i := 0; i < nh; i++ {
+					wd.Hops = append(wd.Hops, hopURL(i))
+				}
+				st := []int{200, 200, 200, 404, 500, 410}[rng.Intn(6)]
+				c, ob := e.doCaseW("redirect", bases[2+rng.Intn(3)], wd, k, st, okBody(k))
+				add(c, ob)
+				w.Count(fmt.Sprintf("redirect_hops:%d", nh))
+			}
+		}
+	}
+	// 8. cancellation: before the call (nothing may be sent; a limiter is asked and refuses),
+	//    and while the one request is in flight
+	for _, v := range vs {
+		for _, cx := range []int{1, 2} {
+			for lim := 0; lim < 3; lim++ {
+				if lim == 2 && cx == 2 {
+					continue
+				}
+				if (v.code+v.elem+lim+cx)%2 == 0 && a.Tier != "thorough" {
+					continue
+				}
+				k := randCall(rng, v.code, v.elem)
+				wd := plain(lim)
+				wd.Ctx = cx
+				c, ob := e.doCaseW("cancel", bases[2], wd, k, 200, okBody(k))
+				add(c, ob)
+				w.Count(fmt.Sprintf("context:%d", cx))
+			}
 		}
 	}
 
@@ -1108,17 +1144,7 @@ func main() {
 				mut(&ob)
 			}()
 			c2 := &wire.Case{Canary: 1, Desc: c.Desc}
-			c2.Int(1).Str("http://osm.test/api/0.6").Int(int64(lim))
-			putCall(c2, k)
-			c2.Int(int64(st)).Int(int64(b.Kind))
-			if b.Kind == 1 {
-				putEls(c2, b.Els)
-			} else {
-				putEls(c2, b.C)
-				putEls(c2, b.M)
-				putEls(c2, b.D)
-			}
-			putObserved(c2, ob)
+			encodeCase(c2, "http://osm.test/api/0.6", plain(lim), k, st, b, ob)
 			w.Add(c2)
 		}
 		get := call{Code: 0, Elem: 0, ID: 12345}
@@ -1140,6 +1166,32 @@ func main() {
 		mk(func(ob *observed) { ob.Requests[0].URL = strings.Replace(ob.Requests[0].URL, "T00:00:00Z", "T05:30:00Z", 1) },
 			call{Code: 6, Elem: 1, ID: 3, FOpts: []atOpt{{Unix: 1451606400, Zone: 19800}}}, 200, 0)
 		mk(func(ob *observed) { ob.Panicked = true }, get, 200, 0)
+		mkw := func(mut func(ob *observed), wd world, k call, st int) {
+			b := okBody(k)
+			c, ob := e.doCaseW("", "http://osm.test/api/0.6", wd, k, st, b)
+			func() {
+				defer func() {
+					if recover() != nil {
+						ob.Panicked = !ob.Panicked
+						ob.Class = (ob.Class + 1) % 7
+					}
+				}()
+				mut(&ob)
+			}()
+			c2 := &wire.Case{Canary: 1, Desc: c.Desc}
+			encodeCase(c2, "http://osm.test/api/0.6", wd, k, st, b, ob)
+			w.Add(c2)
+		}
+		two := world{Follow: true, HopStatus: 302, Hops: []string{"http://a.test/x", "http://b.test/y"}}
+		mkw(func(ob *observed) { ob.Requests[1], ob.Requests[2] = ob.Requests[2], ob.Requests[1] }, two, get, 200)
+		mkw(func(ob *observed) { ob.Requests = ob.Requests[:2]; ob.Events = ob.Events[:2] }, two, get, 200)
+		mkw(func(ob *observed) { ob.Class = 0; ob.HasData = true; ob.Data = []el{{1, 77}} }, world{Follow: false, HopStatus: 301, Hops: []string{"http://a.test/x"}}, get, 200)
+		before := plain(1)
+		before.Ctx = 1
+		mkw(func(ob *observed) { ob.Events = append(ob.Events, 2); ob.Requests = append(ob.Requests, request{"GET", "http://osm.test/api/0.6/node/12345?"}) }, before, get, 200)
+		during := plain(0)
+		during.Ctx = 2
+		mkw(func(ob *observed) { ob.Class = 0; ob.HasData = true; ob.Data = []el{{1, 77}} }, during, get, 200)
 	}
 
 	if err := w.Flush(a.Out, "Verif.C20.Check", 700); err != nil {
